@@ -1,4 +1,5 @@
 mod common;
+mod c12;
 mod c15;
 mod c18;
 mod dist;
@@ -14,6 +15,7 @@ fn main() {
         "replay" => {
             let (prop, cases, verd) = (&args[2], &args[3], &args[4]);
             match prop.as_str() {
+                "C12" => c12::replay(cases, verd),
                 "C15" => c15::replay(cases, verd),
                 "C18" => c18::replay(cases, verd, args.get(5).and_then(|s| s.parse().ok()).unwrap_or(2)),
                 _ => {
@@ -28,6 +30,7 @@ fn main() {
             let n: usize = args[4].parse().unwrap();
             let out = &args[5];
             match sub.as_str() {
+                "C12" => c12::record(seed, n, out, args.get(6).and_then(|s| s.parse().ok()).unwrap_or(16)),
                 "C15" => c15::record(seed, n, out),
                 "C18" => c18::record(&args[6], seed, n, out),
                 _ => {
